@@ -255,11 +255,11 @@ def dns_compr_part(ctx, exe, cfgs, G):
                         "rr": "|".join("%s/%s/%d/%d/%04x%04x/%s" % (x["sec"], hx(x["name"]), x["t"], x["c"], x["ttl"][0], x["ttl"][1], rd_token(x["rd"])) for x in rrs) or "-"}
                 # dns_msg_rr_find by every record's own owner name, over all records: the first record (in message order) whose
                 # name is equal ignoring letter case, with the number of records behind it (names and order come from the spec)
-                if rrs:
+                if 0 < len(rrs) <= 256:       # (the driver's offset table holds 256 records)
                     low = [bytes(x["name"]).lower() for x in rrs]
                     want["find"] = ",".join("0:%d:%d" % (low.index(nm), len(rrs) - 1 - low.index(nm)) for nm in low)
                 ok = True
-                for k2 in ("val", "sizeget", "info", "cnt", "qd", "rr") + (("find",) if rrs else ()):
+                for k2 in ("val", "sizeget", "info", "cnt", "qd", "rr") + (("find",) if "find" in want else ()):
                     if f.get(k2) != want[k2]:
                         what = {"val": "dns_msg_validate", "sizeget": "dns_msg_size_get", "info": "dns_msg_info_get", "cnt": "counters", "qd": "question", "rr": "rr", "find": "dns_msg_rr_find"}[k2]
                         if k2 == "rr":     # name the first record that differs: owner name / RDATA name / other fields
